@@ -22,7 +22,7 @@ ASSUMPTIONS = ["one symbolic attribute per obligation (the row under test); othe
                "the table part (every row denotes one dictionary AVP, grouped iff container class, no duplicates) is a finite table: enumerated, not solved"]
 BOUNDS = {"quick": "table: all rows of all classes (enumerated); round trip: all rows of the base-protocol commands + a seeded 10 % of the other rows, one symbolic value per row (ints: whole domain; bytes <= 2; str <= 1 code point; Time: documented range; Address/Float: 3 representatives; containers: first scalar member symbolic; lists: symbolic + one concrete element); undefined-command naming: 3 AVPs with a repeat and a grouped one",
           "thorough": "round trip of all rows"}
-OUTSIDE = ["several symbolic attributes at once", "nesting > 2", "lists > 2 elements", "random subsets of attributes (single attributes and class defaults only)"]
+OUTSIDE = ["several symbolic attributes at once", "nesting > 2", "lists > 2 elements", "random subsets of attributes (covered: none, each single attribute, all, all-but-one)"]
 
 
 # ----------------------------------------------------------------------------- class / row enumeration (from the live code, every run)
@@ -332,6 +332,58 @@ def row_rt(iv: int, bv: bytes, sv: str) -> bool:
     return hx.check(inputs, obs, exp, "attribute %s.%s -> AVP (%d, %d) -> attribute" % (P["cls"], d.attr_name, d.avp_code, d.vendor_id))
 
 
+# ----------------------------------------------------------------------------- (c) all attributes at once, one omitted
+def _set_all(obj, omit, depth=0):
+    """type-directed concrete values for every row except row index `omit`; returns the expected (code, vendor) multiset"""
+    exp = []
+    for i, d in enumerate(rows_of(type(obj))):
+        if i == omit and depth == 0:
+            # left untouched: a class default (if any) stays, otherwise the AVP is absent
+            cur = getattr(obj, d.attr_name, None)
+            if cur not in (None, []):
+                exp.extend([(d.avp_code, d.vendor_id)] * (len(cur) if isinstance(cur, list) else 1))
+            continue
+        e = A.get_avp_dictionary_entry(d.avp_code, d.vendor_id)
+        if e is None:
+            continue
+        k = kind_of(e["type"])
+        cur = getattr(obj, d.attr_name, None)
+        if k == "grouped":
+            if d.type_class is None:
+                continue
+            v = d.type_class()
+            if depth < 1:
+                _set_all(v, -1, depth + 1)
+        else:
+            v = concrete_value(k, i)[0]
+        setattr(obj, d.attr_name, [v] if isinstance(cur, list) else v)
+        exp.append((d.avp_code, d.vendor_id))
+    return exp
+
+
+def class_all(omit: int) -> bool:
+    """
+    pre: -1 <= omit < P["nrows"]
+    post: _
+    """
+    hx.begin()
+    cls = CLASSES[P["cls"]]
+    is_msg = P["cls"].startswith("m:")
+    om = hx.concretize_range(omit, -1, P["nrows"])
+    try:
+        obj = cls()
+        exp = _set_all(obj, om)
+        avps = _avps_of(obj, is_msg)
+        got = sorted((a.code, a.vendor_id) for a in avps)
+        wire = _encode(obj, is_msg)
+        back = _decode(cls, wire, is_msg)
+        again = _encode(back, is_msg)
+        obs = (got, again == wire, type(back) is cls)
+    except Exception as e:
+        return hx.fail((omit,), "raised %s: %s" % (type(e).__name__, str(e)[:80]))
+    return hx.check((omit,), obs, (sorted(exp), True, True), "all attributes set (one omitted): exactly one AVP per set attribute, nothing for the unset one; encode-decode-encode stable")
+
+
 # ----------------------------------------------------------------------------- undefined commands: attribute naming
 def undefined_naming(v1: int, v2: int, b3: bytes) -> bool:
     """
@@ -394,5 +446,13 @@ def specs(tier, seed, carve):
         out.append(dict(id="row/%s/%d-%s" % (cname, i, attr), fn="row_rt", params={"cls": cname, "row": i, "kind": k, "sel": rnd.randrange(3)},
                         timeout=60 if k not in ("u64", "i64") else 120, path_timeout=20,
                         bound="row %d (%s) of %s: one symbolic %s value" % (i, attr, cname, k)))
+    names = sorted(CLASSES)
+    if q:
+        small = [n_ for n_ in names if len(rows_of(CLASSES[n_])) <= 25]
+        names = [n_ for n_ in small if n_.startswith("m:") and n_[2:].split(".")[0] in ("capabilities_exchange", "device_watchdog", "disconnect_peer")] + rnd.sample(small, 14)
+    for n_ in sorted(set(names)):
+        nr = len(rows_of(CLASSES[n_]))
+        out.append(dict(id="class_all/" + n_, fn="class_all", params={"cls": n_, "nrows": nr}, timeout=240 if q else 2400,
+                        bound="%s: all %d attributes set to type-directed values at once, and with each single attribute left untouched" % (n_, nr)))
     out.append(dict(id="undefined_naming", fn="undefined_naming", params={}, timeout=120, bound="undefined command with a repeated AVP (two symbolic Unsigned32), a grouped AVP and a symbolic OctetString"))
     return out
